@@ -83,6 +83,10 @@ def gen_case(rng):
             d["order"] = {"type": "explicit", "element_ids": l[: rng.randint(0, len(l))]}
         tr[name] = d
     case["transforms"] = tr
+    # a numeric-measure response carrying only WEIGHTED valid counts: emptiness still comes from the unweighted
+    # respondent counts (result.counts), never from the weighted valid counts
+    if case["weighted"] and "ca" not in kinds and rng.random() < 0.2:
+        case["wvalid_only"] = True
     return case
 
 
@@ -115,7 +119,16 @@ def evaluate(case, louts, ctx):
     findings = []
     key = None
     tr = case["transforms"]
-    cube = sc.make_cube(case, transforms=copy.deepcopy(tr))
+    if case.get("wvalid_only"):
+        from cr.cube.cube import Cube
+        import gen
+        wtab = [gen.num(x) for x in gen.tabulate(vars_, survey, True)]
+        resp = gen.cube_response(vars_, survey, True, extra_measures={
+            "mean": [1.5] * len(wtab), "valid_count_weighted": wtab})
+        cube = Cube(resp, transforms=copy.deepcopy(tr))
+        ctx.count("weighted_valid_counts_only")
+    else:
+        cube = sc.make_cube(case, transforms=copy.deepcopy(tr))
     rd = tr.get("rows_dimension", {})
     cd = tr.get("columns_dimension", {})
     if len(kinds) >= 2:
